@@ -89,6 +89,20 @@ fn main() {
 				}
 			}
 		}
+		// strict replay of a libFuzzer artifact of the tape target (bytes = choice tape)
+		"bytes" if args.len() >= 4 => {
+			let data = std::fs::read(&args[3]).expect("input file");
+			kverif::fuzzing::tape_strict(&args[2], &data)
+		}
+		"corpus" if args.len() >= 4 && args[2] != "C18" => {
+			let n = kverif::fuzzing::tape_corpus(&args[2], Path::new(&args[3]), runner::seed_from_env(), 48).expect("corpus");
+			println!("{n} files {} bytes", get(&args[2]).tape_len(Tier::Quick) * 4);
+			0
+		}
+		"fuzzable" => {
+			println!("{}", kverif::fuzzing::TAPE_FUZZABLE.join(" "));
+			0
+		}
 		"corpus" if args.len() >= 5 && args[2] == "C18" => {
 			let n = kverif::fuzzing::c18_corpus(Path::new(&args[3]), Path::new(&args[4])).expect("corpus");
 			println!("{n} files");
